@@ -29,8 +29,94 @@ func solverSpecs(timeout time.Duration) []SolverSpec {
 }
 
 // Query builds the SMT-LIB text of one obligation.
+// symbolsOf lists the declared constants mentioned in an SMT command.
+func (u *Unit) symbolsOf(cmd string) []string {
+	var out []string
+	i := 0
+	for i < len(cmd) {
+		c := cmd[i]
+		if c == '(' || c == ')' || c == ' ' || c == '\n' || c == '\t' {
+			i++
+			continue
+		}
+		j := i
+		for j < len(cmd) && cmd[j] != '(' && cmd[j] != ')' && cmd[j] != ' ' && cmd[j] != '\n' && cmd[j] != '\t' {
+			j++
+		}
+		tok := cmd[i:j]
+		if _, ok := u.declared[tok]; ok {
+			out = append(out, tok)
+		}
+		i = j
+	}
+	return out
+}
+
+// relevantCmds is a cone-of-influence filter: starting from the symbols of the path condition and the goal it keeps
+// the definitions of relevant symbols and the assumptions that mention a relevant symbol, to a fixpoint.
+// Dropping assumptions can only make a proof harder, never unsound.
+func (u *Unit) relevantCmds(o *Obligation) []bool {
+	n := o.NCmds
+	keep := make([]bool, n)
+	syms := make([][]string, n)
+	isDecl := make([]bool, n)
+	for i := 0; i < n; i++ {
+		c := u.cmds[i]
+		if strings.HasPrefix(c, "(declare-const ") {
+			isDecl[i] = true
+			continue
+		}
+		if strings.HasPrefix(c, "(declare-fun ") {
+			keep[i] = true
+			continue
+		}
+		syms[i] = u.symbolsOf(c)
+	}
+	rel := map[string]bool{}
+	for _, s := range u.symbolsOf(o.PC.S + " " + o.Goal.S) {
+		rel[s] = true
+	}
+	for changed := true; changed; {
+		changed = false
+		for i := 0; i < n; i++ {
+			if keep[i] || isDecl[i] {
+				continue
+			}
+			hit := false
+			for _, s := range syms[i] {
+				if rel[s] {
+					hit = true
+					break
+				}
+			}
+			if len(syms[i]) == 0 {
+				hit = true // closed axioms
+			}
+			if hit {
+				keep[i] = true
+				for _, s := range syms[i] {
+					if !rel[s] {
+						rel[s] = true
+						changed = true
+					}
+				}
+			}
+		}
+	}
+	for i := 0; i < n; i++ {
+		if isDecl[i] {
+			f := strings.Fields(u.cmds[i])
+			if len(f) >= 2 && rel[f[1]] {
+				keep[i] = true
+			}
+		}
+	}
+	return keep
+}
+
 func (u *Unit) Query(o *Obligation, wantModel bool, relaxed bool) string {
 	var b strings.Builder
+	keep := u.relevantCmds(o)
 	if relaxed {
 		for _, l := range strings.Split(u.Preamble(), "\n") {
 			if !strings.HasPrefix(l, "(assert (forall") {
@@ -41,7 +127,10 @@ func (u *Unit) Query(o *Obligation, wantModel bool, relaxed bool) string {
 	} else {
 		b.WriteString(u.Preamble())
 	}
-	for _, c := range u.cmds[:o.NCmds] {
+	for ci, c := range u.cmds[:o.NCmds] {
+		if !keep[ci] {
+			continue
+		}
 		if relaxed && strings.HasPrefix(c, "(assert (forall") {
 			continue
 		}
@@ -54,9 +143,9 @@ func (u *Unit) Query(o *Obligation, wantModel bool, relaxed bool) string {
 	if wantModel {
 		b.WriteString("(get-model)\n")
 		var wits []string
-		for name := range u.declared {
-			if strings.HasPrefix(name, "wit$") {
-				wits = append(wits, name)
+		for ci, c := range u.cmds[:o.NCmds] {
+			if keep[ci] && strings.HasPrefix(c, "(declare-const wit$") {
+				wits = append(wits, strings.Fields(c)[1])
 			}
 		}
 		if len(wits) > 0 {
